@@ -90,3 +90,12 @@ package xmldsig
 //@   loop 1 exit @every_child_was_looked_at i >= len(elem.Child)
 //@   on call walkAttributes(t) ret (): assume sameslice(elem.Child, atcall(elem.Child)) && (atcall(forall(k, 0, i + 1, canonChild(elem.Child[k]))) ==> forall(k, 0, i + 1, canonChild(elem.Child[k])))
 //@   ensures @only_elements_and_text_survive_canonicalisation_comments_and_processing_instructions_are_dropped forall(k, 0, len(cur(elem).Child), canonChild(cur(elem).Child[k]))
+//@
+//@ macro keptChild(t etree.Token, tag string) bool = !(istype(t, *etree.Element) && unbox(t, *etree.Element).Tag == tag)
+//@
+//@ func RemoveElements
+//@   property C08 C19
+//@   requires root != nil
+//@   loop 0 sig "for i := 0; i < len(root.Child);" invariant 0 <= i && forall(k, 0, i, keptChild(root.Child[k], tag))
+//@   loop 0 exit @every_child_was_looked_at i >= len(root.Child)
+//@   ensures @no_child_element_with_that_local_name_is_left_whatever_its_prefix forall(k, 0, len(root.Child), keptChild(root.Child[k], tag))
